@@ -23,7 +23,7 @@ fn load(text: &str) -> Result<LeapSecondsFile, hifitime::HifitimeError> {
 pub fn run(name: &str, a: &Args) -> Option<String> {
     Some(match name {
         // parse: "1 [ts,delta,ts,delta,...]" or E<k>
-        "leapfile" => perr(load(&content(a, 0)).map(|f| {
+        "leapfile" | "leapfile_iers" => perr(load(&content(a, 0)).map(|f| {
             let mut v = Vec::new();
             for ls in f {
                 assert!(ls.announced_by_iers);
